@@ -47,6 +47,8 @@ CheckScaled(e, c) ==
   ELSE IF ScaledBad(e.tf.objects2, c, "transformed_from_validated_parts_again_") # "ok" THEN ScaledBad(e.tf.objects2, c, "transformed_from_validated_parts_again_")
   ELSE IF ~e.tf.parts_unchanged THEN "validation_modified_a_validated_object_of_the_caller"
   ELSE IF \E i \in 1..Len(e.tf.mutations) : ~e.tf.mutations[i].rejected THEN "mutation_accepted_after_transformed_validation"
+  \* a constraint transform with a negative scale: refused, or accepted with consistent bounds and a dumped form that validates
+  ELSE IF e.tf.negcon.accepted /\ ~(e.tf.negcon.consistent /\ e.tf.negcon.redump_accepted) THEN "bounds_inverted_by_the_transform_accepted"
   ELSE "ok"
 
 Check(e) ==
